@@ -77,10 +77,10 @@ Fixpoint wfb (l : list entry) : bool :=
 
 (* ---- the guard ------------------------------------------------------------------------------------ *)
 (* _restore_snapshot treats (a) everything in transaction._new / session._new as attached and not
-   deleted, (b) everything in transaction._deleted / session._deleted as being in the deleted state *)
+   deleted (in particular not in transaction._deleted), (b) everything in transaction._deleted / session._deleted as attached states with an identity *)
 Definition restore_ok (st : state) : bool :=
-  forallb (fun o => implb (itnew o || inew o) (osess o && negb (odel o)) &&
-                    implb (itdel o || isdel o) (okey o && osess o && odel o)) (objs st).
+  forallb (fun o => implb (itnew o || inew o) (osess o && negb (odel o) && negb (itdel o)) &&
+                    implb (itdel o || isdel o) (okey o && osess o)) (objs st).
 
 (* was_already_deleted() must not hit a state that this flush deletes as well *)
 Fixpoint organize_ok (e : env) (dels : nat -> bool) (st : state) (ps : list nat) : bool :=
